@@ -418,8 +418,20 @@ func (fr *Frame) callWithSpec(callee *ssa.Function, spec *FuncSpec, args []Val, 
 	if len(resVals) == 1 {
 		post.vars["result"] = cvOf(resVals[0])
 	}
+	var onlyLabels []string
+	restricted := false
+	if root := fx.rootSpec; root != nil {
+		for callee, labels := range root.From {
+			if strings.HasSuffix(key, callee) {
+				onlyLabels, restricted = labels, true
+			}
+		}
+	}
 	for _, c := range spec.Ensures {
 		if !spec.Extern && !fx.eng.useClause(c) {
+			continue
+		}
+		if restricted && !contains(onlyLabels, c.Label) && !strings.HasPrefix(c.Label, "safe") {
 			continue
 		}
 		// a clause that cannot be rendered for this instantiation (e.g. a
